@@ -226,7 +226,7 @@ def _drive(ctx, quick, raw, forced, nbfs, deep, ndeep_all, gdistinct):
     binary = vf.build_gotest(ctx, ".", ["c04"])
     vp = os.path.join(ctx.tmp, "c04_views.ndjson")
     rc, out = vf.run_gotest(ctx, binary, "^TestVfC04Run$", env={"VF_C04_CASES": cp, "VF_C04_VIEWS": vp},
-                            timeout=240 if quick else 900, check=False)
+                            timeout=1200, check=False)
     m = re.search(r"^VFC04SUMMARY (.*)$", out, re.M)
     if not m:
         if "VFC04ABORT" in out:
@@ -255,6 +255,8 @@ def _drive(ctx, quick, raw, forced, nbfs, deep, ndeep_all, gdistinct):
                 continue
             view = json.loads(line)
             cid, mode = view["id"], view["mode"]
+            if view.get("transient"):
+                raise vf.Inconclusive("case %d mode %s kept running into the client timeout (machine load)" % (cid, mode))
             modes_seen[mode] += 1
             if summ_of[cid]["nbytes"] > 9:
                 distinct.add((mode, hashlib.md5(raw[cid][raw[cid].index('"bytes"'):].encode()).digest()))
